@@ -29,7 +29,13 @@ META = ['*', 'a.*', 'b.*', '=', '==', ' = ', '#', '# c', ',', ', ', ';', 'x;', '
         ' ', '  ', '', '___RBQL', '$$', 'a$&b', 'US$', '$1', "$'", '$`', '5$', "it's", 'say "hi"', 'a.name', 'b.x y', 'where a1 == "x"', 'select * from a', '=a2', 'a2=', 'é€', 'UNNEST(', 'like(']
 
 
+TRIPLE = [("'''", "it's where a1"), ("'''", "don't, a2 = won't"), ("'''", "'a' order by 'b"), ('"""', 'say "hi" limit 1'), ('"""', 'x" select "y'), ("'''", "a 'b' c"), ('"""', "it's \"q\" ;")]
+
+
 def literal(rng):
+    if rng.random() < 0.06:
+        q3, body = rng.choice(TRIPLE)       # Python only: triple-quoted, with its own quote character inside
+        return ['str', body, q3]
     r = rng.random()
     if r < 0.4:
         s = rng.choice(KEYWORDS)
